@@ -23,7 +23,7 @@ def run(ctx):
         mx = R.bounds(gt.expr)[1] // 8
         for i, v in enumerate(E.value_cases(rng, gt, n)):
             reqs.append(E.Req(gt, "ser", v))
-            if i % 3 == 0:
+            if i < 3 or i % 3 == 0:       # zero and maximum-length values always go into exactly-sized buffers too
                 reqs.append(E.Req(gt, "serbuf", (v, mx)))
                 reqs.append(E.Req(gt, "serbuf", (v, rng.choice([max(0, mx - 1), mx + 1]))))
     E.run_requests(ctx, sess, drv, "ser", reqs, tally)
